@@ -3,6 +3,7 @@ import theta_rules as T
 import tuple_rules as U
 import chains
 import generic_lints
+import hazard_lints
 import c19_rules
 import twins
 
@@ -23,6 +24,7 @@ def run(facts, tier):
         ("duplicates/emptiness", T.emptiness_and_duplicates, 3, "insert only after a failed find (Theta and Tuple update paths)"),
         ("reset completeness", lambda fa: c19_rules.reset_completeness(fa, ['update_tuple_sketch','theta_update_sketch_base','tuple_union','theta_union_base']), 8, "every field a mutator modifies is re-initialised by reset() (a reused object equals a fresh one); reviewed exceptions are configuration fields"),
         ("tautologies", lambda fa: generic_lints.tautologies(fa, ('theta/', 'tuple/')), 2, "no comparison / assignment / min-max with two identical operands, no if-else with identical arms"),
+        ("hazards", lambda fa: hazard_lints.hazards(fa, ('theta/', 'tuple/')), 2, "no 64-bit value silently narrowed at a call of a library function, no numeric_limits<floating>::min() as a lowest value, no random engine constructed inside a loop, no read of a moved-from parameter, no unguarded unsigned `x - c` loop bound (reviewed instances in spec/hazards.json)"),
         ("duplicate operands", lambda fa: generic_lints.duplicate_conjuncts(fa, ('theta/', 'tuple/')), 2, "no logical chain tests the same operand twice (copy-paste of the wrong peer)"),
         ("moves from lvalue operands", lambda fa: generic_lints.moves_from_lvalue_operands(fa, ['tuple', 'theta']), 1, "in the lvalue instantiation of a forwarding-reference operand nothing is std::move-d out of the operand (conditional_forward copies there): a sketch passed to be read keeps its items / summaries"),
         ("forwarding peers", lambda fa: generic_lints.forwarding_peers(fa, ('theta/', 'tuple/')), 18, "one-statement typed overloads forward to an overload of their own name, never to the head of a sibling family (wrong peer)"),
